@@ -17,6 +17,12 @@
 #include <string>
 #include <thread>
 #include <vector>
+#if __has_include(<valgrind/memcheck.h>)
+#include <valgrind/memcheck.h>
+#define VF_CHECK_DEFINED(p, n) (void)VALGRIND_CHECK_MEM_IS_DEFINED(p, n)
+#else
+#define VF_CHECK_DEFINED(p, n) (void)0
+#endif
 
 namespace {
 struct rec {
@@ -40,7 +46,7 @@ struct out_buf : std::streambuf {
         if (n + k > cap) { cap = (n + k) * 2 + 64; p = (char *)std::realloc(p, cap); }
         std::memcpy(p + n, s, k); n += k;
     }
-    std::streamsize xsputn(const char * s, std::streamsize k) override { put(s, (size_t)k); return k; }
+    std::streamsize xsputn(const char * s, std::streamsize k) override { VF_CHECK_DEFINED(s, (size_t)k); put(s, (size_t)k); return k; }
     int_type overflow(int_type c) override { if (c != traits_type::eof()) { char ch = (char)c; put(&ch, 1); } return c; }
     std::string str() const { return std::string(p ? p : "", n); }
 };
